@@ -4,7 +4,9 @@
 // travel to the Lean model as data. For C15 every encoder of the repository is run on (type,
 // value, options) and its tree is compared with the reflective reference (violation) and with the
 // Lean plan interpreters (disagreement). For C16 values are decomposed and recomposed, marshalled
-// and unmarshalled, after random histories of other types on the same recomposer.
+// and unmarshalled, after random histories of other types on the same recomposer. For C06rec (a
+// sub-check of C06) arbitrary data is pushed into arbitrary target types through every Unmarshal and
+// Recompose entry point, in child processes, looking for panics, surfaced runtime faults and hangs.
 package main
 
 import (
@@ -25,6 +27,11 @@ var (
 	corpus  = flag.String("corpus", "", "corpus file")
 	known   = flag.String("known", "", "known_findings.json")
 	workers = flag.Int("workers", 8, "parallel workers")
+	// C06rec runs its calls in child processes of this binary
+	child     = flag.Bool("child", false, "C06rec: run as a child (cases -from..-to of worker -w)")
+	childW    = flag.Int("w", 0, "C06rec child: worker")
+	childFrom = flag.Int("from", 0, "C06rec child: first case")
+	childTo   = flag.Int("to", 0, "C06rec child: end of cases")
 )
 
 var rep *lib.Report
@@ -40,6 +47,8 @@ func main() {
 		err = runC15()
 	case "C16":
 		err = runC16()
+	case "C06rec":
+		err = runC06rec()
 	default:
 		err = fmt.Errorf("property %s is not served by this harness", *prop)
 	}
